@@ -162,7 +162,7 @@ fn table_op(t: &mut Table, p: &[&str]) -> String {
         }
         "has" => tf(t.contains_key(p[1])),
         "hasv" => tf(t.contains_value(p[1])),
-        "hast" => tf(t.contains_table(p[1])),
+        "hast" => tf(t.contains_table(p[1]) || t.contains_array_of_tables(p[1])), // a table of values holds neither
         "len" => t.len().to_string(),
         "empty" => tf(t.is_empty()),
         "iter" => join(t.iter().map(|(k, i)| format!("{k}={}", slot(i))).collect()),
